@@ -56,102 +56,124 @@ Theorem C16_apply_keeps_suffix : forall change rest (f : file) adds,
 Proof. exact apply_keeps_suffix. Qed.
 Print Assumptions C16_apply_keeps_suffix.
 
-(* the add-ignore replacement is exactly: insert the comment line above the reported line *)
-Theorem C16_add_ignore_is_insertion : forall f ln c rest, 1 <= ln <= length f ->
-  Fixer.apply_changes (Fixer.add_ignore_repl IGN nm f ln c :: rest) f
-  = insert_line (ln - 1) (comment_line IGN nm (indentation (line_at f (ln - 1))) (Some c)) f.
-Proof. exact apply_add_ignore. Qed.
-Print Assumptions C16_add_ignore_is_insertion.
+(* the replacement replace_node / remove_node build for a statement spanning lines a..b
+   (Replacement(range(a, b + 1), new_lines)): every line outside [a, b] is kept in place and
+   order, the range is replaced by exactly the new lines — `[]` for a removal, the `pass` line
+   for a removal that would empty a block, the re-written statement otherwise *)
+Theorem C16_statement_replacement : forall (f : file) a b adds rest,
+  1 <= a -> a <= b -> b <= length f ->
+  Fixer.apply_changes (mk_repl (seq a (S (b - a))) (Some adds) :: rest) f
+  = firstn (a - 1) f ++ adds ++ skipn b f.
+Proof. exact apply_range. Qed.
+Print Assumptions C16_statement_replacement.
 
-(* the inserted line holds only a comment, so the lines that carry code are the same list *)
+(* the add-ignore replacement (after the repair repo_fixes/C16-add-ignore-trailing-fallback) is exactly:
+   append a trailing comment to the reported line when a comment line above cannot work, otherwise
+   insert the comment line above it *)
+Theorem C16_add_ignore_is_insertion_or_trailing : forall f ln c rest, 1 <= ln <= length f ->
+  Fixer.apply_changes (Fixer.add_ignore_repl IGN nm f ln c :: rest) f
+  = if use_trailing IGN f ln
+    then set_line (ln - 1) (trail_line IGN nm (line_at f (ln - 1)) c) f
+    else insert_line (ln - 1) (comment_line IGN nm (indentation (line_at f (ln - 1))) (Some c)) f.
+Proof. exact apply_add_ignore. Qed.
+Print Assumptions C16_add_ignore_is_insertion_or_trailing.
+
+(* an inserted line holds only a comment, so the lines that carry code are the same list *)
 Theorem C16_add_ignore_preserves_code_lines : forall i k c f,
   code_lines (insert_line i (comment_line IGN nm k c) f) = code_lines f.
 Proof. exact (fun i k c f => code_lines_insert i _ f (comment_line_comment_only k c)). Qed.
 Print Assumptions C16_add_ignore_preserves_code_lines.
 
+(* a line with the trailing comment appended: a trailing hit for exactly one more code; still an
+   ordinary code line (not an own-line comment, not blank, no dangling backslash) *)
+Theorem C16_trailing_comment_features : forall l c0 c, (c0 < n_codes)%N -> (c < n_codes)%N ->
+  trailing_hit IGN nm (trail_line IGN nm l c0) c = trailing_hit IGN nm l c || N.eqb c c0.
+Proof. exact trail_line_features. Qed.
+Print Assumptions C16_trailing_comment_features.
+
+Theorem C16_trailing_comment_shape : forall l c0, lstrip l <> [] -> starts_hash l = false ->
+  starts_hash (trail_line IGN nm l c0) = false /\
+  (forall c, own_hit IGN nm (trail_line IGN nm l c0) c = false) /\
+  lstrip (trail_line IGN nm l c0) <> [] /\
+  ends_backslash (rstrip (trail_line IGN nm l c0)) = false.
+Proof. exact trail_line_shape. Qed.
+Print Assumptions C16_trailing_comment_shape.
+
 (* ---- one iteration ------------------------------------------------------ *)
 
-(* full statement: after one add-ignores step for the first reported diagnostic d0, exactly the
-   diagnostics on d0's line with d0's code are gone, every other one is still reported *)
-Definition C16_step_exact_full_statement : Prop :=
-  forall st f raw d0 rest n0, st U = false -> st B = false -> base_okb f raw = true ->
-  main IGN nm st f raw = d0 :: rest -> d_line d0 = Some n0 ->
-  exists f' raw', fix_step IGN nm st U B f raw = Some (f', raw') /\
-    main IGN nm st f' raw'
-    = map (shift_diag n0) (filter (fun d => negb (fixed_by n0 (d_code d0) d)) (main IGN nm st f raw)).
-
-(* refuted outside the guard: the comment for a column-0 line directly below the leading '#' block
-   is a file-level ignore (known finding C16-first-code-line) *)
-Theorem C16_step_exact_refuted :
-  exists f' raw', fix_step IGN nm all_but_tail U B first_line_file first_line_raw = Some (f', raw')
-    /\ main IGN nm all_but_tail first_line_file first_line_raw = first_line_raw
-    /\ main IGN nm all_but_tail f' raw' = []
-    /\ base_okb first_line_file first_line_raw = true
-    /\ fix_guardb all_but_tail first_line_file first_line_raw = false.
-Proof. exact first_line_becomes_file_level. Qed.
-Print Assumptions C16_step_exact_refuted.
-
-Theorem C16_step_exact_partial : forall st f raw d0 rest n0,
-  st U = false -> st B = false -> fix_guardb st f raw = true ->
-  main IGN nm st f raw = d0 :: rest -> d_line d0 = Some n0 ->
-  fix_step IGN nm st U B f raw
-  = Some (insert_line (n0 - 1) (comment_line IGN nm (indentation (line_at f (n0 - 1))) (Some (d_code d0))) f,
-          map (shift_diag n0) raw)
-  /\ main IGN nm st (insert_line (n0 - 1) (comment_line IGN nm (indentation (line_at f (n0 - 1))) (Some (d_code d0))) f)
-          (map (shift_diag n0) raw)
-     = map (shift_diag n0) (filter (fun d => negb (fixed_by n0 (d_code d0) d)) (main IGN nm st f raw))
-  /\ fix_inv st (insert_line (n0 - 1) (comment_line IGN nm (indentation (line_at f (n0 - 1))) (Some (d_code d0))) f)
-             (map (shift_diag n0) raw).
+(* under the guard "every reported line is an ordinary code line" (does not start with '#', is not an
+   own-line ignore comment, is not blank, does not end in a backslash — a decidable check, fix_guardb):
+   the step is the insertion / trailing comment, exactly the diagnostics on the reported line with the
+   reported code are gone, every other one is still reported (moved down with its line when a comment
+   line was inserted), and the guard still holds.  No condition any more on two codes per line, on the
+   line above, or on the position below the leading comment block. *)
+Theorem C16_step_exact : forall st f raw d0 rest,
+  st U = false -> st B = false -> fix_guardb f raw = true ->
+  main IGN nm st f raw = d0 :: rest ->
+  exists n0, d_line d0 = Some n0 /\
+    fix_step IGN nm st U B f raw = Some (step_file f n0 (d_code d0), step_raw f n0 raw) /\
+    main IGN nm st (step_file f n0 (d_code d0)) (step_raw f n0 raw)
+      = map (step_shift f n0) (filter (fun d => negb (fixed_by n0 (d_code d0) d)) (main IGN nm st f raw)) /\
+    fix_inv (step_file f n0 (d_code d0)) (step_raw f n0 raw).
 Proof.
-  exact (fun st f raw d0 rest n0 HU HB G M L =>
-    conj (fix_step_some st f raw d0 rest n0 HU HB (fix_guardb_sound st f raw G) M L)
-      (conj (fix_step_main st f raw d0 rest n0 (fix_guardb_sound st f raw G) M L)
-            (fix_step_inv st f raw d0 rest n0 (fix_guardb_sound st f raw G) M L))).
+  exact (fun st f raw d0 rest HU HB G M =>
+    match fix_step_some st f raw d0 rest HU HB (fix_guardb_sound f raw G) M with
+    | ex_intro _ n0 (conj L0 FS) =>
+        ex_intro _ n0 (conj L0 (conj FS (conj (fix_step_main st f raw d0 rest n0 (fix_guardb_sound f raw G) M L0)
+                                              (fix_step_inv st f raw d0 rest n0 (fix_guardb_sound f raw G) M L0))))
+    end).
 Qed.
-Print Assumptions C16_step_exact_partial.
+Print Assumptions C16_step_exact.
 
 (* ---- the iteration ------------------------------------------------------ *)
 
-(* full statement: the repeat loop ends within the iteration limit with no diagnostic left and the
-   same code lines *)
-Definition C16_add_ignores_terminates_full_statement : Prop :=
-  forall st f raw, st U = false -> st B = false -> base_okb f raw = true ->
-  exists f' raw', iterate IGN nm ApplyGen.iteration_limit st U B f raw = Some (f', raw') /\
-    emit IGN nm st f' U B raw' = [] /\ code_lines f' = code_lines f.
-
-(* refuted: two different codes on one line alternate until the limit (known finding C16-two-codes-one-line) *)
-Theorem C16_add_ignores_terminates_refuted :
-  iterate IGN nm 150 all_but_tail U B two_codes_file two_codes_raw = None
-  /\ base_okb two_codes_file two_codes_raw = true
-  /\ fix_guardb all_but_tail two_codes_file two_codes_raw = false.
-Proof. exact two_codes_diverges. Qed.
-Print Assumptions C16_add_ignores_terminates_refuted.
-
-(* and with unused_ignore enabled it never ends as soon as one comment is unused
-   (known finding C16-unused-ignore-enabled) *)
-Theorem C16_unused_ignore_enabled_refuted :
-  iterate IGN nm 150 (fun c => negb (N.eqb c B)) U B unused_file unused_raw = None.
-Proof. exact unused_ignore_enabled_diverges. Qed.
-Print Assumptions C16_unused_ignore_enabled_refuted.
-
-(* under the decidable guard (first_code_line, comment_above, two_codes_one_line clauses) and
-   with the two comment-hygiene codes disabled (their default): the loop ends after at most one
-   iteration per reported diagnostic, nothing is reported any more, the code lines are unchanged.
-   No bound on the size of the file or the number of diagnostics. *)
-Theorem C16_add_ignores_terminates_partial : forall k st f raw,
+(* the repeat loop ends after at most one iteration per reported diagnostic with nothing left to
+   report, and the file differs from the original only by inserted comment-only lines and appended
+   trailing comments.  No bound on the size of the file or on the number of diagnostics, any number
+   of error codes per line; unused_ignore / bare_ignore at their default (off). *)
+Theorem C16_add_ignores_terminates : forall k st f raw,
   st U = false -> st B = false ->
-  fix_guardb st f raw = true -> length (main IGN nm st f raw) <= k ->
+  fix_guardb f raw = true -> length (main IGN nm st f raw) <= k ->
   exists f' raw',
     iterate IGN nm k st U B f raw = Some (f', raw') /\
     emit IGN nm st f' U B raw' = [] /\
-    code_lines f' = code_lines f.
+    comment_edit f f'.
 Proof.
-  exact (fun k st f raw HU HB G => add_ignores_terminates k st f raw HU HB (fix_guardb_sound st f raw G)).
+  exact (fun k st f raw HU HB G => add_ignores_terminates k st f raw HU HB (fix_guardb_sound f raw G)).
 Qed.
-Print Assumptions C16_add_ignores_terminates_partial.
+Print Assumptions C16_add_ignores_terminates.
 
-Example C16_guard_inhabited :
-  fix_guardb all_but_tail ok_file ok_raw = true /\ length (main IGN nm all_but_tail ok_file ok_raw) = 4
-  /\ exists f' raw', iterate IGN nm 4 all_but_tail U B ok_file ok_raw = Some (f', raw') /\ length f' = 8.
-Proof. exact guard_inhabited. Qed.
-Print Assumptions C16_guard_inhabited.
+(* the statement without any guard stays refuted by the one class left (known finding
+   C16-continuation-line, narrowed): a reported line that itself ends in a backslash gets the comment
+   line above it, whatever is there *)
+Definition C16_add_ignores_terminates_full_statement : Prop :=
+  forall k st f raw, st U = false -> st B = false ->
+  (forall d, In d raw -> exists n, d_line d = Some n /\ 1 <= n <= length f) ->
+  length (main IGN nm st f raw) <= k ->
+  exists f' raw', iterate IGN nm k st U B f raw = Some (f', raw') /\ emit IGN nm st f' U B raw' = [] /\ comment_edit f f'.
+
+Theorem C16_guard_excludes_backslash_line :
+  fix_guardb [[100%N]; [32%N; 120%N; 32%N; 92%N]; [32%N; 121%N]] [mk_diag 1 3 (Some 2) 1 true] = false.
+Proof. exact guard_excludes_backslash. Qed.
+Print Assumptions C16_guard_excludes_backslash_line.
+
+(* the former refutations, now positive: three codes on one line end after three steps; a reported
+   line 1 gets a trailing comment and the diagnostic two lines below is still reported; and the model
+   of the code before the repair still alternates until ITERATION_LIMIT *)
+Theorem C16_three_codes_terminate :
+  fix_guardb three_codes_file three_codes_raw = true /\
+  exists f' raw', iterate IGN nm 3 all_but_tail U B three_codes_file three_codes_raw = Some (f', raw')
+    /\ length f' = 3 /\ emit IGN nm all_but_tail f' U B raw' = [].
+Proof. exact three_codes_terminate. Qed.
+Print Assumptions C16_three_codes_terminate.
+
+Theorem C16_first_line_not_file_level :
+  exists f' raw', fix_step IGN nm all_but_tail U B first_line_file first_line_raw = Some (f', raw')
+    /\ length f' = 3 /\ main IGN nm all_but_tail f' raw' = [mk_diag 2 3 (Some 3) 0 true].
+Proof. exact first_line_not_file_level. Qed.
+Print Assumptions C16_first_line_not_file_level.
+
+Theorem C16_unrepaired_two_codes_diverge :
+  old_iterate 150 all_but_tail three_codes_file (firstn 2 three_codes_raw) = None.
+Proof. exact unrepaired_two_codes_diverge. Qed.
+Print Assumptions C16_unrepaired_two_codes_diverge.
